@@ -197,12 +197,10 @@ theorem parts_prefix (lookup : List Nat → Option Nat) (strict raw : Bool) (P :
       simp only
       split
       · split
-        · rfl
+        · exact ih _ _ _ _ _ _
         · split
+          · rfl
           · exact ih _ _ _ _ _ _
-          · split
-            · rfl
-            · exact ih _ _ _ _ _ _
       · split
         · split
           · exact ih _ _ _ _ _ _
@@ -218,6 +216,30 @@ theorem parts_prefix (lookup : List Nat → Option Nat) (strict raw : Bool) (P :
               · rfl
           · exact ih _ _ _ _ _ _
 
+/-- one escape in literal text: model and reference agree (from the C06 lemma), and the location
+    advances as the reference computes it -/
+theorem escape_lit (lookup : List Nat → Option Nat) (hl : LookupOk lookup) (kind : Kind)
+    (hb : kind.isAnyBytes = false) (cs : List Nat) (hns : NoSurr cs) (loc : Nat)
+    (items rest : List Nat) (h : PV.C06.Spec.escape lookup false cs = some (items, rest)) :
+    parseEscapedChar lookup kind cs loc =
+      .ok (items.map PV.C06.Spec.fffd, rest, loc + (Spec.ulen cs - Spec.ulen rest)) ∧ rest <:+ cs ∧
+      rest.length < cs.length := by
+  have he := escape_spec lookup hl kind cs hns loc
+  rw [hb, h] at he
+  obtain ⟨hsuf, hlen⟩ := escape_suffix h
+  cases hp : parseEscapedChar lookup kind cs loc with
+  | error e => rw [hp] at he; simp [Agree] at he
+  | ok a =>
+    obtain ⟨s, cs', loc'⟩ := a
+    rw [hp] at he
+    simp [Agree, EscRel] at he
+    obtain ⟨rfl, rfl⟩ := he
+    obtain ⟨pre, e1, e2⟩ := parseEscapedChar_adv lookup kind cs loc _ _ _ hp
+    refine ⟨?_, hsuf, hlen⟩
+    have : Spec.ulen cs - Spec.ulen cs' = utf8Len pre := by
+      rw [e1, ulen_append]; show utf8Len pre + utf8Len cs' - utf8Len cs' = utf8Len pre; omega
+    rw [this, e2]
+
 /-! ### `parse_spec` and the nested `parse_fstring` against the reference `parts` -/
 
 /-- `fstringLoop` at nesting 1 (inside a format spec, after the first nested field) agrees with the
@@ -231,7 +253,8 @@ def PB (lookup : List Nat → Option Nat) (kind : Kind) (n : Nat) : Prop :=
 theorem model_flush (values : List Piece) (content : List Nat) :
     (if content.isEmpty then values else values ++ [Piece.lit content]) = Spec.Acc.flush ⟨values, content⟩ := rfl
 
-theorem PA_step (lookup : List Nat → Option Nat) (kind : Kind) (n : Nat)
+theorem PA_step (lookup : List Nat → Option Nat) (hl : LookupOk lookup) (kind : Kind)
+    (hk : kind.isAnyBytes = false) (n : Nat)
     (hA : PA lookup kind n) (hF : PF lookup kind n) (hB : PB lookup kind n) : PA lookup kind (n + 1) := by
   intro nested lit cs off ps r o h hns
   cases cs with
@@ -249,8 +272,38 @@ theorem PA_step (lookup : List Nat → Option Nat) (kind : Kind) (n : Nat)
     simp only at h
     have hns' : NoSurr cs := hns.suffix (List.suffix_cons _ _)
     by_cases h92 : c = 92 ∧ ¬ kind.isRaw = true
-    · simp [h92] at h
+    · -- an escape in the literal text that opens the spec
+      obtain ⟨rfl, hraw⟩ := h92
+      rw [if_pos ⟨rfl, hraw⟩] at h
+      by_cases hbr : cs.head? = some 123 ∨ cs.head? = some 125
+      · simp only [hbr, if_true] at h
+        obtain ⟨hsuf, hm⟩ := hA nested (lit ++ [92]) cs (off + 1) ps r o h hns'
+        refine ⟨hsuf.trans (List.suffix_cons _ _), ?_⟩
+        intro fuel hf
+        simp only [List.length_cons] at hf
+        match fuel, hf with
+        | f + 1, hf =>
+          conv => lhs; unfold specLoop
+          simp [hraw, hbr]
+          exact hm f (by omega)
+      · simp only [hbr, if_false] at h
+        cases hesc : PV.C06.Spec.escape lookup false cs with
+        | none => simp [hesc] at h
+        | some p =>
+          obtain ⟨items, rest⟩ := p
+          simp only [hesc] at h
+          obtain ⟨hpe, hsuf1, hlen1⟩ := escape_lit lookup hl kind hk cs hns' (off + 1) items rest hesc
+          obtain ⟨hsuf, hm⟩ := hA nested (lit ++ items.map PV.C06.Spec.fffd) rest _ ps r o h (hns'.suffix hsuf1)
+          refine ⟨(hsuf.trans hsuf1).trans (List.suffix_cons _ _), ?_⟩
+          intro fuel hf
+          simp only [List.length_cons] at hf
+          match fuel, hf with
+          | f + 1, hf =>
+            conv => lhs; unfold specLoop
+            simp [hraw, hbr, hpe]
+            exact hm f (by omega)
     · simp only [h92, if_false] at h
+      have h92' : ¬ (c = 92 ∧ ¬ kind.isRaw = true) := h92
       by_cases h123 : c = 123
       · -- the first nested field
         subst h123
@@ -330,32 +383,8 @@ theorem PA_step (lookup : List Nat → Option Nat) (kind : Kind) (n : Nat)
           match fuel, hf with
           | f + 1, hf =>
             conv => lhs; unfold specLoop
-            simp only [h123, h125, if_false]
+            simp only [h123, h125, h92', if_false]
             exact hm f (by omega)
-
-/-- one escape in literal text: model and reference agree (from the C06 lemma), and the location
-    advances as the reference computes it -/
-theorem escape_lit (lookup : List Nat → Option Nat) (hl : LookupOk lookup) (kind : Kind)
-    (hb : kind.isAnyBytes = false) (cs : List Nat) (hns : NoSurr cs) (loc : Nat)
-    (items rest : List Nat) (h : PV.C06.Spec.escape lookup false cs = some (items, rest)) :
-    parseEscapedChar lookup kind cs loc =
-      .ok (items.map PV.C06.Spec.fffd, rest, loc + (Spec.ulen cs - Spec.ulen rest)) ∧ rest <:+ cs ∧
-      rest.length < cs.length := by
-  have he := escape_spec lookup hl kind cs hns loc
-  rw [hb, h] at he
-  obtain ⟨hsuf, hlen⟩ := escape_suffix h
-  cases hp : parseEscapedChar lookup kind cs loc with
-  | error e => rw [hp] at he; simp [Agree] at he
-  | ok a =>
-    obtain ⟨s, cs', loc'⟩ := a
-    rw [hp] at he
-    simp [Agree, EscRel] at he
-    obtain ⟨rfl, rfl⟩ := he
-    obtain ⟨pre, e1, e2⟩ := parseEscapedChar_adv lookup kind cs loc _ _ _ hp
-    refine ⟨?_, hsuf, hlen⟩
-    have : Spec.ulen cs - Spec.ulen cs' = utf8Len pre := by
-      rw [e1, ulen_append]; show utf8Len pre + utf8Len cs' - utf8Len cs' = utf8Len pre; omega
-    rw [this, e2]
 
 theorem PB_step (lookup : List Nat → Option Nat) (hl : LookupOk lookup) (kind : Kind)
     (hk : kind.isAnyBytes = false) (n : Nat)
@@ -377,7 +406,7 @@ theorem PB_step (lookup : List Nat → Option Nat) (hl : LookupOk lookup) (kind 
     have hns' : NoSurr cs := hns.suffix (List.suffix_cons _ _)
     by_cases h92 : c = 92 ∧ ¬ kind.isRaw = true
     · obtain ⟨rfl, hraw⟩ := h92
-      rw [if_pos ⟨rfl, hraw⟩, if_neg (by simp)] at h
+      rw [if_pos ⟨rfl, hraw⟩] at h
       by_cases hbr : cs.head? = some 123 ∨ cs.head? = some 125
       · simp only [hbr, if_true] at h
         obtain ⟨hsuf, hend, hm⟩ := hB values (content ++ [92]) cs (off + 1) ps r o h hns'
